@@ -8,7 +8,7 @@ NODE_OF = {"A": "n1", "A2": "n1", "B": "n2", "B2": "n2", "C": "n3", "C2": "n3"}
 PROFILES = {
     # no faults: ordering, merging, per-node order
     "base": dict(clients=2, steps=(4, 14), menu=["get", "get", "set", "mget", "del", "mset", "ping", "unknown", "arity"],
-                 kinds=["ok", "ok", "ok", "nil", "mix"], slots=["A", "A2", "B", "B2", "C"], burst=(1, 4)),
+                 kinds=["ok", "ok", "ok", "nil", "mix", "mixe", "empty"], slots=["A", "A2", "B", "B2", "C"], burst=(1, 4)),
     "errors": dict(clients=2, steps=(4, 12), menu=["get", "set", "mget", "del", "mset", "ping"],
                    kinds=["ok", "err", "err", "nil"], slots=["A", "A2", "B", "C"], burst=(1, 3),
                    errcls=["ERR", "WRONGTYPE", "LOADING", "CLUSTERDOWN", "TRYAGAIN", "CROSSSLOT", "READONLY", "BUSY", "OOM",
@@ -36,7 +36,7 @@ PROFILES = {
     "gate": dict(clients=2, steps=(5, 14), menu=["get", "get", "set", "mget", "ping"],
                  kinds=["ok"], slots=["A", "B", "C"], burst=(1, 3), stall="n3", p_owed=0.8),
     "fwdonly": dict(clients=2, steps=(5, 14), menu=["get", "get", "set", "mget", "del", "mset"],
-                    kinds=["ok", "nil", "mix"], slots=["A", "A2", "B", "C"], burst=(1, 3), stall="n3", p_owed=0.5),
+                    kinds=["ok", "nil", "mix", "mixe"], slots=["A", "A2", "B", "C"], burst=(1, 3), stall="n3", p_owed=0.5),
     # clients that send bytes that are not RESP while their own and other clients' requests are in flight
     "hostile": dict(clients=3, steps=(5, 14), menu=["get", "get", "set", "mget", "del", "del", "mset", "ping", "bad"],
                     kinds=["ok", "ok", "nil"], slots=["A", "A2", "B", "C"], burst=(1, 4)),
